@@ -9,10 +9,11 @@
     (a) purity: for every callable whose regenerated effect IR has
         [mutated_params = []] (one generated obligation per callable per run).
     (c) repeatability is differential only. *)
-From Coq Require Import List Bool Arith ZArith String.
-From Verde Require Import Lib.Verdict Model.Checks Model.Frames Model.Effects
+From Coq Require Import List Bool Arith ZArith QArith String.
+From Verde Require Import Lib.Verdict Lib.Dyadic Model.Checks Model.Frames Model.Effects
   Proofs.ChecksProofs Proofs.FramesProofs Proofs.EffectsProofs.
 Import ListNotations.
+Close Scope Q_scope.
 
 (** ---------------- (d) rejection of inconsistent input ---------------- *)
 
@@ -62,6 +63,11 @@ Print Assumptions C20_check_extra_coords_names_iff.
 Theorem C20_check_region_iff : forall r, check_region r = true <-> region_valid r.
 Proof. exact check_region_iff. Qed.
 Print Assumptions C20_check_region_iff.
+
+(** on exact doubles there is no tolerance: W <= E and S <= N as real numbers *)
+Theorem C20_check_region_d_iff : forall r, check_region_d r = true <-> region_valid_d r.
+Proof. exact check_region_d_iff. Qed.
+Print Assumptions C20_check_region_d_iff.
 
 (** exactly one of shape and spacing *)
 Theorem C20_one_of_iff : forall shape_given spacing_given,
@@ -209,6 +215,11 @@ Example C20_nv_weights : check_fit_input [[2;3];[2;3]] [[2;3]] [Some [3;2]] = fa
                          vector_fit 2 [[4];[4]] [[4];[4]] [None;None] = true.
 Proof. repeat split; reflexivity. Qed.
 Example C20_nv_reject : check_fit_input [[4];[5]] [[4]] [None] = false /\ check_fit_input [[4];[4]] [[4]] [Some [4]] = true.
+Proof. split; reflexivity. Qed.
+(* W one part in 2^34 above E at 5e5 (1 ulp) is rejected, W = E accepted *)
+Example C20_nv_region_ulp :
+  check_region_d [(500000 * 2^34 + 1, -34); (500000, 0); (0, 0); (1, 0)]%Z = false /\
+  check_region_d [(500000, 0); (500000, 0); (0, 0); (1, 0)]%Z = true.
 Proof. split; reflexivity. Qed.
 (* a class in the shape of verde.Spline passes; reading a fitted attribute in fit, a
    computing constructor, a predict without guard do not *)
